@@ -88,6 +88,8 @@ var props = map[string]*Prop{
 		Assumptions: []string{"states that differ only in the number (>=1) of false-positive notes are merged", "Pebble itself is trusted; detection.MatchSignature is used by the brute-force side (it is C08's subject)"},
 		Bounds:      map[string]string{"quick": "BFS: all histories of <=3 operations over 45 ops; sequences: depth <=4 over 12 ops", "thorough": "BFS: fixpoint of the reachable state space (cap 60000 states, internal deadline); sequences: depth <=6 over 12 ops"},
 		Units: []Unit{
+			{Name: "bulk-import-repeated-ids", Pkg: "pkg/storage/pebbledb", Test: "TestVerifC06Migrate", Shards: sh(4, 4), TimeoutS: sh(900, 900)},
+			{Name: "cli-migrate-then-reopen", Pkg: "internal/cli", Test: "TestVerifC06CLIMigrate", Shards: sh(1, 1), TimeoutS: sh(900, 900)},
 			{Name: "json-store-histories", Pkg: "pkg/storage/pebbledb", Test: "TestVerifC18AddGet", Shards: sh(16, 16), TimeoutS: sh(1200, 1800), Env: map[string]string{"VERIF_JSON_ONLY": "1"}},
 			{Name: "store-bfs", Pkg: "pkg/storage/pebbledb", Test: "TestVerifC06", Shards: sh(1, 1), GoMaxProcs: 16, TimeoutS: sh(900, 3600), DeadlineS: sh(300, 1500)},
 			{Name: "store-sequences", Pkg: "pkg/storage/pebbledb", Test: "TestVerifC06Seq", Shards: sh(16, 16), GoMaxProcs: 1, TimeoutS: sh(900, 3600), DeadlineS: sh(300, 1500)},
